@@ -23,6 +23,12 @@
   cubed.vendor.rechunker.algorithm._calculate_shared_chunks `sharedChunk`
   cubed.core.ops._store_array, region branch (one axis)    `RegionAxis` (`aligned`, `tasks`, `write`, `read`, `taskOK`)
                                   … all axes               `regionTasks`, `regionTaskOK`
+      step / bounds validation, `slice.indices(n)[:2]`     `SliceReq`, `clampIdx`, `sliceIndices`, `regionAccept`
+      inserted `source.rechunk(region_chunksize)` (ba97b91) `RegionAxis.effective`  (the code before that commit is
+                                                           `regionTaskOK` on the axes as given — "old variant")
+  cubed.core.ops._store_array, no region, existing target:
+      guard `all(sc % tc == 0 or sc >= n ...)` (d416aac)   `StoreReq.alignedB`, `storeGuard`
+      write-proxy chunks after the guard / inserted rechunk `storeWriteFixed`  (old variant: `storeWriteOld`)
 
   A grid along one axis is the list of its chunk sizes (a regular zarr grid with chunk `c` over `n`
   elements is `regular n c`; a rectilinear grid is any list).  Intervals are half-open pairs `(lo, hi)`.
@@ -145,6 +151,34 @@ structure StoreAxis where
   tgt : Nat
 deriving DecidableEq, Repr
 
+/-- one axis of a store into an existing (unsharded, regularly chunked) array as `_store_array` handles it
+since d416aac: `last` is the copy chunk of the final stage of the rechunk to the target chunks that is
+inserted when the guard fails (that final rechunk op is re-targeted to the user's array, so its copy
+chunks are the write-proxy chunks); unused when the guard passes. -/
+structure StoreReq where
+  n : Nat
+  src : Nat
+  tgt : Nat
+  last : Nat
+deriving DecidableEq, Repr
+
+/-- one conjunct of the guard: `sc % tc == 0 or sc >= n`. -/
+def StoreReq.alignedB (a : StoreReq) : Bool := a.src % a.tgt == 0 || decide (a.n ≤ a.src)
+
+/-- the guard of `_store_array`: every source chunk is a multiple of the target chunk or spans the axis. -/
+def storeGuard (axes : List StoreReq) : Bool := axes.all StoreReq.alignedB
+
+/-- stored grid of the existing target. -/
+def storeStoredFixed (axes : List StoreReq) : List (List Nat) := axes.map fun a => regular a.n a.tgt
+
+/-- write-proxy grids of the tasks that write the user's array: the source chunks when the guard passes,
+otherwise the copy chunks of the final stage of the inserted rechunk. -/
+def storeWriteFixed (axes : List StoreReq) : List (List Nat) :=
+  if storeGuard axes then axes.map fun a => regular a.n a.src else axes.map fun a => regular a.n a.last
+
+/-- OLD variant (before d416aac): no guard, the write-proxy grids are always the source chunks. -/
+def storeWriteOld (axes : List StoreAxis) : List (List Nat) := axes.map fun a => regular a.n a.src
+
 /-- `_fix_copy_chunks` on one axis. -/
 def fixCopy (n cc tc : Nat) : Nat :=
   if cc ≤ tc ∨ cc = n ∨ cc % tc = 0 then cc else (cc / tc) * tc
@@ -191,7 +225,36 @@ def taskOK (r : RegionAxis) (j : Nat) : Bool :=
   | some (lo, hi), some (lo', hi') => decide (r.a ≤ lo ∧ hi ≤ r.b ∧ lo' + r.a = lo ∧ hi' + r.a = hi)
   | _, _ => false
 
+/-- since ba97b91 the source of a region store is rechunked to `to_chunksize(normalize_chunks(target.chunks,
+source.shape))` = `min ct (b - a)` per axis when its chunksize differs: the axis the tasks really read. -/
+def effective (r : RegionAxis) : RegionAxis :=
+  { r with cs := if min r.cs (r.b - r.a) = min r.ct (r.b - r.a) then r.cs else min r.ct (r.b - r.a) }
+
 end RegionAxis
+
+/-- one slice of a `region=` argument: `None` = `none`. -/
+structure SliceReq where
+  start : Option Int
+  stop : Option Int
+  step : Option Int
+deriving DecidableEq, Repr
+
+/-- `slice.indices(n)` for one bound and positive step: negative counts from the end, clamped to `[0, n]`. -/
+def clampIdx (n : Nat) (i : Int) : Nat :=
+  if i < 0 then (i + n).toNat else min i.toNat n
+
+/-- `slice(start, stop).indices(n)[:2]` (step `None`/1). -/
+def sliceIndices (n : Nat) (s : SliceReq) : Nat × Nat :=
+  ((match s.start with | none => 0 | some i => clampIdx n i),
+   (match s.stop with | none => n | some i => clampIdx n i))
+
+/-- the validation of one region slice in `_store_array` (since ba97b91): steps other than `None`/1 are
+refused, bounds are normalized, then the alignment test runs on the normalized bounds.  `none` = ValueError. -/
+def regionAccept (nt ct : Nat) (s : SliceReq) : Option (Nat × Nat) :=
+  if s.step = none ∨ s.step = some 1 then
+    let ab := sliceIndices nt s
+    if ab.1 % ct = 0 ∧ (ab.2 % ct = 0 ∨ ab.2 = nt) then some ab else none
+  else none
 
 /-- `OutputBlocksIterable`: the tasks of a region store, one per target chunk meeting the region. -/
 def regionTasks : List RegionAxis → List (List Nat)
